@@ -1,5 +1,9 @@
 import CharsetProof.Props.C15
+import CharsetProof.Props.C16b
 open Charset
+#print axioms C16_multi_failure
+#print axioms C16_multi_entries
+#print axioms go_report_only
 #print axioms C16_validation_first
 #print axioms C16_validate_cases
 #print axioms C16_missing_file
